@@ -107,6 +107,14 @@ def cases(tier, seed):
     for g in G.many_paths(200 if thorough else 131):
         if len(G.build(g)) > 34:
             out.append({'g': g, 'directed': g[-1] is True, 'ws': 1, 'only': ['distance_wei~bin', 'distance_bin~binarized', 'reachdist~binarized']})
+    # sizes one above a multiple of 64 / 128 (block boundaries of a vectorised routine), cheap pairs only
+    cheap = ['clustering_coef_wd~bd', 'clustering_coef_wu~bu', 'transitivity_wd~bd', 'transitivity_wu~bu', 'clustering_coef_bd~bu',
+             'clustering_coef_wd~wu', 'transitivity_bd~bu', 'transitivity_wd~wu', 'strengths_und~degrees_und', 'strengths_dir~degrees_dir',
+             'degrees_dir_in~degrees_und', 'degrees_dir_out~degrees_und', 'degrees_und~binarized', 'degrees_dir~binarized',
+             'density_und~binarized', 'density_dir~binarized']
+    for n, p_ in ((65, .25), (129, .12), (257, .06)) + (((513, .03),) if thorough else ()):
+        for d in (False, True):
+            out.append({'g': ['er', n, p_, d, seed + n], 'directed': d, 'ws': n, 'only': cheap})
     return out
 
 
